@@ -527,7 +527,9 @@ func (og *OpGen) Next(boards []CBoard, bi int) Op {
 			op.Key, _ = objID()
 			op.NewName = og.name()
 			if og.R.Intn(20) == 0 {
-				op.NewName = []string{"style", "label", "a.b", "x -> y"}[og.R.Intn(4)]
+				// (names that parse as a path or a connection — "a.b", "x -> y" — make Rename produce IDs like
+				// "(x -> y)[0]" that poison the rest of the history; see findings C40-rename-to-dotted-name / -edge-like-name)
+				op.NewName = []string{"style", "label", "near"}[og.R.Intn(3)]
 				og.count("rename:odd-name")
 			}
 			og.count("rename:object")
